@@ -2,7 +2,7 @@
   Lemmas/CoreRoles5 — the roles invariant through block processing, every operation and every run.
 -/
 import DymVerif.Lemmas.CoreRoles4
-namespace DymVerif.Core
+namespace DymVerif.Core.Roles
 
 theorem foldl_inv_mem {α β} (P : β → Prop) (f : β → α → β) (l : List α) (b : β) (hb : P b)
     (hf : ∀ b a, a ∈ l → P b → P (f b a)) : P (l.foldl f b) := by
@@ -334,4 +334,4 @@ theorem run_roles (p : Params) (hp : 0 < p.noticePeriod) (ops : List Op) : Roles
   · exact init_roles p hp
   · intro b o hb; exact step_roles hb
 
-end DymVerif.Core
+end DymVerif.Core.Roles
